@@ -1107,6 +1107,9 @@ package psatoken
 
 //@ bounded[C06] alloc-audit : 221 adversarial CBOR inputs (headers of major types 2..6 declaring 2^8 .. 2^63 bytes / entries with nothing, little or a map around them; nesting depths 16 .. 65000 of arrays, maps and tags; a 64 KiB honest token) and 12 JSON inputs (nesting 100 .. 32000, 60 KB strings / names / numbers) through every decode entry point incl. the embedding-aware populate helpers of an extension profile; allocation (runtime.MemStats.TotalAlloc) <= 1 MiB + 1 KiB per input byte and 5 s per call :: boundedAllocAudit()
 //@ bounded[C18] read-only : 96 claims-sets (32 valid, 32 damaged, 32 of two extension profiles): deep structural snapshot, getter results, Validate verdict, CBOR and JSON encodings before vs after a series of read-side calls, each repeated; claims decoded from CBOR / JSON and Evidence decoded from a signed token compared before vs after the caller's input buffer is overwritten (getters, verification with the right and with another key, Evidence JSON); verification and reading on the signing Evidence :: boundedReadOnly()
+//@ bounded[C01,C11,C14] value-rules : byte-string lengths 0..80 through every validator, setter and getter of both profiles and of the component; 600 strings in the single-edit neighbourhood (insertion / substitution / deletion over 10 characters incl. newline and a non-ASCII letter) of three valid certification references through both regular expressions, setters and getters; all 2^16 lifecycle values through the state mapping, names, validator and (sampled) setters -- against oracles written from the statement :: boundedValueRules()
+//@ bounded[C13] error-classes : every getter of an empty and of a malformed claims-set of both profiles, four setter failures, component fields, a profile mismatch: exactly one of the five classes; the filter on 9 + 7 error values built by wrapping :: boundedErrorClasses()
+//@ bounded[C16] registry : re-registration under 4 taken names, a claims type without profile field, one late registration: lookups of 5 names and decoding of 2 tokens before vs after; independence of two NewClaims results; 300 repetitions of JSON dispatch of an ambiguous and of a profile-less token :: boundedRegistry()
 //@ bounded[C02,C03] tamper : 5 pairs of ES256 tokens over the valid claims-sets: every single-bit flip, every truncation, payload / signature / protected-header splices between two tokens, arbitrary signature bytes, the other key; thorough tier: 48 ES256, 4 ES384, 4 ES512, 4 EdDSA and 2 PS256 token pairs :: boundedTamper()
 //@ bounded[C20] envelope : envelopes from an independent CBOR writer: tags 0..30 and none, array lengths 0..6, each of the four elements replaced by 8 other item types, wrapped / null / array / empty / integer payloads, trailing bytes :: boundedEnvelope()
 //@ bounded[C19,C03] histories : all operation sequences of length <= 4 over {Sign ok, Sign with failing signer, Sign with empty signature, Sign with an unsupported algorithm and a junk signature, ValidateAndSign on invalid claims, UnmarshalCOSE genuine, UnmarshalCOSE garbage} on one Evidence (2 800 sequences); thorough tier: length <= 5 (19 607 sequences) :: boundedHistories()
